@@ -6,9 +6,18 @@
 import OttoVerif.C01.Syntax
 namespace OttoVerif.C01
 
+/-- one environment in front of the global one: a catch parameter (declarative record, §12.14) or
+    the binding object of a `with` statement (object record, §10.2.1.2) -/
+inductive Scope where
+  | catchB (x : String) (v : Val)
+  | withO (id : Nat)
+deriving Repr, Inhabited
+
 structure CSt where
   globals : List (String × Val)
-  scopes : List (String × Val)       -- catch-parameter environments, innermost first
+  scopes : List Scope                -- innermost first
+  heap : List (List (String × Val))  -- plain objects by allocation index (own properties; the
+                                     -- generated names never collide with Object.prototype's)
   trace : List Val                   -- arguments of the calls to the host function `log`, oldest first
 deriving Repr, Inhabited
 
@@ -20,18 +29,37 @@ def updateA (x : String) (v : Val) : List (String × Val) → List (String × Va
   | [] => []
   | (k, w) :: r => if k = x then (k, v) :: r else (k, w) :: updateA x v r
 
-def CSt.get (σ : CSt) (x : String) : Option Val :=
-  match lookupA x σ.scopes with
-  | some v => some v
-  | none => lookupA x σ.globals
+def setNth {β : Type} : List β → Nat → β → List β
+  | [], _, _ => []
+  | _ :: r, 0, b => b :: r
+  | a :: r, n+1, b => a :: setNth r n b
 
-def CSt.set (σ : CSt) (x : String) (v : Val) : CSt :=
-  match lookupA x σ.scopes with
-  | some _ => { σ with scopes := updateA x v σ.scopes }
-  | none =>
+/-- §10.2.2.1 GetIdentifierReference along the scope list, then the global object -/
+def getIn (heap : List (List (String × Val))) (globals : List (String × Val)) (x : String) : List Scope → Option Val
+  | [] => lookupA x globals
+  | .catchB y v :: r => if y = x then some v else getIn heap globals x r
+  | .withO id :: r =>
+    match lookupA x (heap[id]?.getD []) with
+    | some v => some v
+    | none => getIn heap globals x r
+
+def CSt.get (σ : CSt) (x : String) : Option Val := getIn σ.heap σ.globals x σ.scopes
+
+/-- PutValue on an identifier reference: the first environment that has the binding takes the
+    value; an unresolvable reference creates a global (non-strict) -/
+def setIn (x : String) (v : Val) (σ : CSt) : List Scope → List Scope → CSt
+  | _, [] =>
     match lookupA x σ.globals with
     | some _ => { σ with globals := updateA x v σ.globals }
-    | none => { σ with globals := σ.globals ++ [(x, v)] }      -- non-strict: creates a global
+    | none => { σ with globals := σ.globals ++ [(x, v)] }
+  | done, .catchB y w :: r =>
+    if y = x then { σ with scopes := done ++ (.catchB y v :: r) } else setIn x v σ (done ++ [.catchB y w]) r
+  | done, .withO id :: r =>
+    match lookupA x (σ.heap[id]?.getD []) with
+    | some _ => { σ with heap := setNth σ.heap id (updateA x v (σ.heap[id]?.getD [])) }
+    | none => setIn x v σ (done ++ [.withO id]) r
+
+def CSt.set (σ : CSt) (x : String) (v : Val) : CSt := setIn x v σ [] σ.scopes
 
 def truthyV : Val → Bool
   | .undef => false | .null => false
@@ -39,10 +67,11 @@ def truthyV : Val → Bool
   | .num n => n != 0
   | .str s => s != ""
   | .err _ => true
+  | .obj _ => true
 
 def typeofV : Val → String
   | .undef => "undefined" | .null => "object" | .bool _ => "boolean" | .num _ => "number"
-  | .str _ => "string" | .err _ => "object"
+  | .str _ => "string" | .err _ => "object" | .obj _ => "object"
 
 def evalC : Expr → CSt → ER CSt
   | .lit v, σ => .ok v σ
@@ -100,16 +129,29 @@ def evalC : Expr → CSt → ER CSt
     match σ.get x with
     | some v => .ok (.str (typeofV v)) σ
     | none => .ok (.str "undefined") σ
+  | .objLit fields, σ =>
+    .ok (.obj σ.heap.length) { σ with heap := σ.heap ++ [fields.map (fun (k, n) => (k, Val.num n))] }
+
+/-- §12.10 steps 2–5: ToObject (TypeError on undefined/null; a primitive gets a wrapper, which has
+    none of the generated names) and the new object environment in front -/
+def withEnterC (v : Val) (σ : CSt) : ER CSt :=
+  match v with
+  | .undef => .throw (.err "TypeError") σ
+  | .null => .throw (.err "TypeError") σ
+  | .obj id => .ok .undef { σ with scopes := .withO id :: σ.scopes }
+  | _ => .ok .undef { σ with scopes := .withO σ.heap.length :: σ.scopes, heap := σ.heap ++ [[]] }
 
 def concreteSem : Sem CSt where
   evalE := evalC
   truthy := truthyV
   strictEq := fun a b => a == b
-  catchEnter := fun p v σ => { σ with scopes := (p, v) :: σ.scopes }
+  catchEnter := fun p v σ => { σ with scopes := .catchB p v :: σ.scopes }
   catchExit := fun σ => { σ with scopes := σ.scopes.drop 1 }
+  withEnter := withEnterC
+  withExit := fun σ => { σ with scopes := σ.scopes.drop 1 }
 
 /-- §10.5 for a Program with only `var` declarations: every declared name is bound to undefined -/
 def initState (vars : List String) : CSt :=
-  { globals := vars.map (fun x => (x, Val.undef)), scopes := [], trace := [] }
+  { globals := vars.map (fun x => (x, Val.undef)), scopes := [], heap := [], trace := [] }
 
 end OttoVerif.C01
